@@ -253,7 +253,7 @@ fn check_from_hand(acc: &mut Acc, w: &[u32]) {
     if !matches!(guard(|| from_hand(w)), Ok(b) if b == exp) {
         match confirm(judge, Case::w32("from_hand", w)) {
             Some(v) => acc.violate(v),
-            None => monitor::machinery_fail("C15 from_hand mismatch not reproduced"),
+            None => super::unreproduced("C15 from_hand mismatch not reproduced"),
         }
     }
 }
@@ -330,7 +330,7 @@ pub fn run(ctx: &Ctx, rep: &mut Report) {
                     if peel_all(s).is_err() {
                         match confirm(judge, Case::new("peel_all", &[s])) {
                             Some(v) => acc.violate(v),
-                            None => monitor::machinery_fail("C15 peel_all mismatch not reproduced"),
+                            None => super::unreproduced("C15 peel_all mismatch not reproduced"),
                         }
                     }
                 }
@@ -458,6 +458,21 @@ pub fn run(ctx: &Ctx, rep: &mut Report) {
             }
         }
         rep.add_space(&format!("from_index: all token sequences of length 0..={} over 8 tokens x 3 separator styles", maxl), &acc, t0, "result = set of the distinct card tokens");
+    }
+    {
+        let t0 = Instant::now();
+        let mut acc = Acc::new(1);
+        for s in super::c12::long_texts() {
+            acc.cases += 1;
+            acc.calls += 1;
+            acc.nontrivial += 1;
+            if let Verdict::Violated { .. } = judge(&Case::text("from_index", &s, &[])) {
+                if let Some(v) = confirm(judge, Case::text("from_index", &s, &[])) {
+                    acc.violate(v);
+                }
+            }
+        }
+        rep.add_space("from_index: long texts (k filler tokens then a new card, k = 0..=300 and around powers of two up to 65,537)", &acc, t0, "a set built from text must contain a card however late its token comes");
     }
     rep.rule = "graph states (sets over U) and edges; distinct 64-bit sets; distinct ordered hands / strings. Non-trivial = non-empty graph states, sets with overflow bits or empty, hands in which something must be dropped or merged".into();
     rep.bound = "fold/peel histories of ANY length over a 12-bit universe (closed graph); all sets with <= 4 members and their complements over 64 bits; from_n: all tuples (n <= 4), all multisets (n >= 5) over S53; the remaining 2^64 sets are outside".into();
